@@ -54,15 +54,22 @@ Definition check_slide
   eqb_list (map fst (s_starts r)) (map fst starts) &&
   forallb (fun ab => Bool.eqb (snd (fst ab)) (snd (snd ab))) (combine (s_starts r) starts).
 
-(* case = (elements, expected verdict of the independent Python cycle search) *)
+(* the start configuration of a real head is the one the verifier predicts (hypothesis of
+   C10_slide_bound); only meaningful for flows accepted by guarded_flowb *)
+Definition check_start (c : list elem * nat * list label) : bool :=
+  let '(es, start, cs) := c in
+  negb (guarded_flowb es) || Nat.leb (length es) start ||
+  match stk_at (compute_stk es) start with Some s => eqb_labels s cs | None => false end.
+
+(* case = (elements, expected verdict of the independent Python search) *)
 Definition check_guarded (c : list elem * bool) : bool :=
   Bool.eqb (guarded_flowb (fst c)) (snd c).
 
 (* unguarded flows must really be able to spin: the oracle found by the Python search makes the
    model run out of any fuel we try (here 4 * length + 8) *)
-Definition check_spins (c : list elem * list outcome * nat) : bool :=
-  let '(es, ol, start) := c in
-  match s_stop (slide (4 * length es + 8) es (fun k => nth (k mod (length ol)) ol OTrue) start []) with
+Definition check_spins (c : list elem * list outcome * nat * list label) : bool :=
+  let '(es, ol, start, cs) := c in
+  match s_stop (slide (4 * length es + 8) es (fun k => nth (k mod (length ol)) ol OTrue) start cs) with
   | OutOfFuel => true
   | _ => false
   end.
